@@ -96,7 +96,7 @@ impl Property for C01 {
             "type-7", "type-8", "type-9", "unknown-tag", "dup-tag", "unsorted", "non-utf8",
             "nonzero-reserved", "nonzero-pad", "empty-payload", "sig-dlmod-0", "sig-dlmod-1", "sig-dlmod-2",
             "sig-dlmod-3", "sig-dlmod-4", "sig-dlmod-5", "sig-dlmod-6", "sig-dlmod-7", "input-bad-magic3",
-            "metadata-accepted", "via-file",
+            "metadata-accepted", "via-file", "via-fifo",
         ]
     }
     fn phases(&self, tier: Tier) -> Vec<Phase<PkgCase>> {
@@ -233,6 +233,39 @@ impl Property for C01 {
                         if std::fs::read(&outp).ok().as_deref() != Some(&w[..]) {
                             o.fail("write-file-differs", "write_file produced different bytes than write");
                             return o;
+                        }
+                        // the same path based entry point on something that is not a regular file
+                        // (a FIFO fed by another thread): stat() says size 0, the bytes are the same
+                        let fifo = dir.0.join("in.fifo");
+                        let cpath = std::ffi::CString::new(fifo.as_os_str().to_string_lossy().as_bytes()).unwrap();
+                        if unsafe { libc::mkfifo(cpath.as_ptr(), 0o600) } == 0 {
+                            let data = x.clone();
+                            let fifo2 = fifo.clone();
+                            let feeder = std::thread::spawn(move || {
+                                if let Ok(mut f) = std::fs::OpenOptions::new().write(true).open(&fifo2) {
+                                    use std::io::Write;
+                                    let _ = f.write_all(&data);
+                                }
+                            });
+                            let via_fifo = panics::catch(|| rpm::Package::open(&fifo));
+                            let _ = feeder.join();
+                            match via_fifo {
+                                Ok(Ok(pf)) if pf.metadata == p.metadata && pf.content == p.content => {
+                                    o.label("via-fifo");
+                                }
+                                Ok(Ok(pf)) => {
+                                    o.fail("open-differs", format!("Package::open on a FIFO carrying the same bytes gives a different value (payload {} bytes instead of {})", pf.content.len(), p.content.len()));
+                                    return o;
+                                }
+                                Ok(Err(e)) => {
+                                    o.fail("open-differs", format!("Package::open on a FIFO carrying accepted bytes fails: {e}"));
+                                    return o;
+                                }
+                                Err(pn) => {
+                                    o.fail("open-panic", pn);
+                                    return o;
+                                }
+                            }
                         }
                     }
                     Ok(other) => {
